@@ -255,3 +255,855 @@ Lemma aacc_calls_app lv a c1 c2 : aacc_calls lv a (c1 ++ c2) <-> aacc_calls lv a
 Proof.
   revert a. induction c1 as [|c r IH]; intros a; cbn [app aacc_calls arun]; [tauto|]. rewrite IH. tauto.
 Qed.
+
+(** * 4. Filling in the float texts twice; the validators under [fill_rec] *)
+
+Lemma canon64_idem b : canon64 (canon64 b) = canon64 b.
+Proof.
+  unfold canon64.
+  destruct ((N.land b 9218868437227405312 =? 9218868437227405312) && negb (N.land b 4503599627370495 =? 0)) eqn:E;
+    [reflexivity|rewrite E; reflexivity].
+Qed.
+Lemma canon32_idem b : canon32 (canon32 b) = canon32 b.
+Proof.
+  unfold canon32.
+  destruct ((N.land b 2139095040 =? 2139095040) && negb (N.land b 8388607 =? 0)) eqn:E;
+    [reflexivity|rewrite E; reflexivity].
+Qed.
+
+Section Fill2.
+Variables fmt64 fmt32 : N -> xstring.
+(** Rust's Display prints every NaN as "NaN", whatever sign and payload *)
+Hypothesis nan_text64 : forall b, fmt64 (canon64 b) = fmt64 b.
+Hypothesis nan_text32 : forall b, fmt32 (canon32 b) = fmt32 b.
+
+Notation f64 := (fill64 fmt64).
+Notation f32 := (fill32 fmt32).
+
+Lemma fill64_idem f : f64 (f64 f) = f64 f.
+Proof. unfold fill64. cbn [f64_bits]. rewrite canon64_idem, nan_text64. reflexivity. Qed.
+Lemma fill32_idem f : f32 (f32 f) = f32 f.
+Proof. unfold fill32. cbn [f32_bits]. rewrite canon32_idem, nan_text32. reflexivity. Qed.
+Lemma omap_idem {A} (g : A -> A) (o : option A) : (forall x, g (g x) = g x) -> option_map g (option_map g o) = option_map g o.
+Proof. intros H. destruct o; cbn; [rewrite H|]; reflexivity. Qed.
+Lemma fill_dt_idem d : fill_dt fmt64 (fill_dt fmt64 d) = fill_dt fmt64 d.
+Proof. unfold fill_dt. cbn. rewrite fill64_idem. reflexivity. Qed.
+Lemma fill_tr_idem t : fill_tr fmt64 (fill_tr fmt64 t) = fill_tr fmt64 t.
+Proof. unfold fill_tr. cbn. rewrite !fill64_idem. reflexivity. Qed.
+Lemma fill_lv_idem v : fill_lv fmt64 fmt32 (fill_lv fmt64 fmt32 v) = fill_lv fmt64 fmt32 v.
+Proof. destruct v; cbn; rewrite ?fill64_idem, ?fill32_idem; reflexivity. Qed.
+Lemma fill_il_idem l : fill_il fmt64 fmt32 (fill_il fmt64 fmt32 l) = fill_il fmt64 fmt32 l.
+Proof. unfold fill_il. cbn. rewrite !(omap_idem _ _ fill_lv_idem). reflexivity. Qed.
+Lemma fill_cl_idem l : fill_cl fmt64 fmt32 (fill_cl fmt64 fmt32 l) = fill_cl fmt64 fmt32 l.
+Proof. unfold fill_cl. cbn. rewrite !(omap_idem _ _ fill_lv_idem). reflexivity. Qed.
+Lemma fill_cb_idem l : fill_cb fmt64 (fill_cb fmt64 l) = fill_cb fmt64 l.
+Proof. unfold fill_cb. cbn. rewrite !(omap_idem _ _ fill64_idem). reflexivity. Qed.
+Lemma fill_sb_idem l : fill_sb fmt64 (fill_sb fmt64 l) = fill_sb fmt64 l.
+Proof. unfold fill_sb. cbn. rewrite !(omap_idem _ _ fill64_idem). reflexivity. Qed.
+Lemma fill_type_idem t : fill_type fmt64 fmt32 (fill_type fmt64 fmt32 t) = fill_type fmt64 fmt32 t.
+Proof.
+  destruct t; cbn; rewrite ?(omap_idem _ _ fill64_idem), ?(omap_idem _ _ fill32_idem), ?fill64_idem; reflexivity.
+Qed.
+Lemma fill_rec_idem r : fill_rec fmt64 fmt32 (fill_rec fmt64 fmt32 r) = fill_rec fmt64 fmt32 r.
+Proof. unfold fill_rec. cbn. rewrite fill_type_idem. reflexivity. Qed.
+Lemma fill_proto_idem p : map (fill_rec fmt64 fmt32) (map (fill_rec fmt64 fmt32) p) = map (fill_rec fmt64 fmt32) p.
+Proof. rewrite map_map. apply map_ext. apply fill_rec_idem. Qed.
+
+Notation FR := (fill_rec fmt64 fmt32).
+Notation FT := (fill_type fmt64 fmt32).
+
+Lemma contains_fill p n : contains (map FR p) n = contains p n.
+Proof. unfold contains. induction p as [|r p IH]; [reflexivity|]. cbn [map existsb]. rewrite IH. reflexivity. Qed.
+Lemma get_rec_fill p n : get_rec (map FR p) n = option_map FR (get_rec p n).
+Proof.
+  unfold get_rec. induction p as [|r p IH]; [reflexivity|]. cbn [map find]. change (r_name (FR r)) with (r_name r).
+  destruct (name_eqb (r_name r) n); [reflexivity|exact IH].
+Qed.
+Lemma int_type_fill t : is_integer_type (FT t) = is_integer_type t.
+Proof. destruct t; reflexivity. Qed.
+Lemma int_range_fill t lo hi : is_integer_range (FT t) lo hi = is_integer_range t lo hi.
+Proof. destruct t; reflexivity. Qed.
+Lemma validate_flag_fill p f c h : validate_flag (map FR p) f c h = validate_flag p f c h.
+Proof.
+  unfold validate_flag. rewrite get_rec_fill, contains_fill. destruct (get_rec p f) as [r|]; [|reflexivity].
+  cbn [option_map]. change (r_type (FR r)) with (FT (r_type r)). rewrite int_range_fill. reflexivity.
+Qed.
+Lemma int_present_fill p n : integer_if_present (map FR p) n = integer_if_present p n.
+Proof.
+  unfold integer_if_present. rewrite get_rec_fill. destruct (get_rec p n) as [r|]; [|reflexivity].
+  cbn [option_map]. change (r_type (FR r)) with (FT (r_type r)). rewrite int_type_fill. reflexivity.
+Qed.
+Lemma not_int_present_fill p n : not_integer_if_present (map FR p) n = not_integer_if_present p n.
+Proof.
+  unfold not_integer_if_present. rewrite get_rec_fill. destruct (get_rec p n) as [r|]; [|reflexivity].
+  cbn [option_map]. change (r_type (FR r)) with (FT (r_type r)). rewrite int_type_fill. reflexivity.
+Qed.
+Lemma nodup_fill p : nodup_names (map FR p) = nodup_names p.
+Proof. induction p as [|r p IH]; [reflexivity|]. cbn [map nodup_names]. rewrite contains_fill, IH. reflexivity. Qed.
+Lemma range_fill p : forallb (fun r => range_nonempty (r_type r)) (map FR p) = forallb (fun r => range_nonempty (r_type r)) p.
+Proof.
+  induction p as [|r p IH]; [reflexivity|]. cbn [map forallb]. rewrite IH. f_equal. destruct r as [n t]. destruct t; reflexivity.
+Qed.
+Lemma validate_prototype_fill p : validate_prototype (map FR p) = validate_prototype p.
+Proof.
+  unfold validate_prototype, validate_cartesian, validate_spherical, validate_color, validate_return, count3.
+  rewrite !validate_flag_fill, !int_present_fill, !not_int_present_fill, !contains_fill, nodup_fill, range_fill. reflexivity.
+Qed.
+Lemma ext_validate_fill exts : forall p, ext_validate_prototype (map FR p) exts = ext_validate_prototype p exts.
+Proof.
+  induction p as [|r p IH]; [reflexivity|]. cbn [map ext_validate_prototype]. change (r_name (FR r)) with (r_name r).
+  rewrite IH. reflexivity.
+Qed.
+Lemma dtypes_fill p : proto_dtypes (map FR p) = proto_dtypes p.
+Proof.
+  unfold proto_dtypes. rewrite map_map. apply map_ext. intros r. unfold rec_dtype. destruct r as [n t]. destruct t; reflexivity.
+Qed.
+Lemma i64_fill p : proto_i64 p -> proto_i64 (map FR p).
+Proof.
+  intros H q Hq. apply in_map_iff in Hq as (r & <- & Hr). specialize (H r Hr). destruct r as [n t]. destruct t; exact H.
+Qed.
+Lemma checks_fill exts p : checks exts p -> checks exts (map FR p).
+Proof.
+  intros (H1 & H2 & H3 & H4). unfold checks. rewrite validate_prototype_fill, ext_validate_fill, dtypes_fill.
+  auto using i64_fill.
+Qed.
+Lemma bounds_new_fill p : bounds_new (map FR p) = bounds_new p.
+Proof. unfold bounds_new. rewrite !contains_fill. reflexivity. Qed.
+
+(** scale and offset of scaled integers are not NaNs with a payload: they enter the bounds *)
+Definition proto_canonical (p : list record) : Prop :=
+  forall r, In r p ->
+    match r_type r with
+    | DScaledInteger _ _ s o => canon64 (f64_bits s) = f64_bits s /\ canon64 (f64_bits o) = f64_bits o
+    | _ => True
+    end.
+
+Lemma update_bounds_fill : forall p vs b, proto_canonical p -> update_bounds (map FR p) vs b = update_bounds p vs b.
+Proof.
+  induction p as [|r p IH]; intros vs b Hc; [reflexivity|]. cbn [map update_bounds]. destruct vs as [|v vr]; [reflexivity|].
+  assert (H1 : update_one (FR r) v b = update_one r v b).
+  { unfold update_one. change (r_name (FR r)) with (r_name r). change (r_type (FR r)) with (FT (r_type r)).
+    specialize (Hc r (or_introl eq_refl)).
+    assert (Hf : to_f64 v (FT (r_type r)) = to_f64 v (r_type r)).
+    { destruct v; try reflexivity. destruct (r_type r); try reflexivity. destruct Hc as [C1 C2].
+      cbn [fill_type to_f64]. unfold f64_of_t, fill64. cbn [f64_bits]. rewrite C1, C2. reflexivity. }
+    assert (Hi : to_i64 v (FT (r_type r)) = to_i64 v (r_type r)) by (destruct v, (r_type r); reflexivity).
+    rewrite Hf, Hi. reflexivity. }
+  rewrite H1. destruct (update_one r v b) as [b1 [[]|k|]]; try reflexivity.
+  apply IH. intros q Hq. apply Hc. right. exact Hq.
+Qed.
+Lemma fold_bounds_fill p pts b : proto_canonical p -> fold_bounds (map FR p) pts b = fold_bounds p pts b.
+Proof.
+  intros Hc. unfold fold_bounds. revert b. induction pts as [|vs pts IH]; intros b; [reflexivity|].
+  cbn [fold_left]. rewrite update_bounds_fill by exact Hc. apply IH.
+Qed.
+
+End Fill2.
+
+(** * 5. The copying client *)
+
+Definition guid_of (pc : pointcloud) : xstring := match pc_guid pc with Some g => g | None => [] end.
+(** every setter of the point cloud writer, with the value the reader reports *)
+Definition pc_fields (pc : pointcloud) : list pc_field :=
+  [PfName (pc_name pc); PfDescription (pc_description pc); PfOriginalGuids (pc_original_guids pc);
+   PfTransform (pc_transform pc); PfAcquisitionStart (pc_acquisition_start pc); PfAcquisitionEnd (pc_acquisition_end pc);
+   PfSensorVendor (pc_sensor_vendor pc); PfSensorModel (pc_sensor_model pc); PfSensorSerial (pc_sensor_serial pc);
+   PfSensorHwVersion (pc_sensor_hw_version pc); PfSensorSwVersion (pc_sensor_sw_version pc);
+   PfSensorFwVersion (pc_sensor_fw_version pc); PfTemperature (pc_temperature pc); PfHumidity (pc_humidity pc);
+   PfAtmosphericPressure (pc_atmospheric_pressure pc);
+   PfIntensityLimits (pc_intensity_limits pc); PfColorLimits (pc_color_limits pc)].
+Definition pc_body (pc : pointcloud) (pts : list (list rvalue)) : list wcall :=
+  map PcSet (pc_fields pc) ++ map PcAddPoint pts.
+Fixpoint pcs_copy (pcs : list pointcloud) (pts : list (list (list rvalue))) : list wcall :=
+  match pcs, pts with
+  | pc :: r, p :: q =>
+      AddPointcloud (guid_of pc) (pc_prototype pc) :: pc_body pc p ++ [PcFinalize; PcDrop] ++ pcs_copy r q
+  | _, _ => []
+  end.
+Definition copy_tops (m : file_meta) (pts : list (list (list rvalue))) : list wcall :=
+  SetCoordinateMetadata (rt_coordinate_metadata (fm_root m)) :: SetCreation (rt_creation (fm_root m)) ::
+  map (fun e => RegisterExtension (e_namespace e) (e_url e)) (fm_extensions m) ++
+  pcs_copy (fm_pointclouds m) pts.
+Definition copy_calls (m : file_meta) (pts : list (list (list rvalue))) : list wcall :=
+  NewWriter (rt_guid (fm_root m)) :: copy_tops m pts ++ [Finalize].
+
+(** the descriptor the copy's [finalize] pushes (file offset 0) *)
+Definition set_all (pc d : pointcloud) : pointcloud := fold_left (fun d f => pc_set f d) (pc_fields pc) d.
+Definition copied (pc : pointcloud) (pts : list (list rvalue)) : pointcloud :=
+  let proto := pc_prototype pc in
+  desc_finish (set_all pc (desc_new (guid_of pc) proto (default_intensity_limits proto) (cl_of proto)))
+              (fold_bounds proto pts (bounds_new proto)) 0 (len pts).
+
+Lemma pcs_copy_units : forall pcs pts, units (pcs_copy pcs pts).
+Proof.
+  induction pcs as [|pc r IH]; intros [|p q]; cbn [pcs_copy]; try apply un_nil. apply un_pc.
+  - unfold pc_body. apply Forall_app. split; apply Forall_forall; intros c Hc; apply in_map_iff in Hc as (x & <- & _); exact I.
+  - split; left; unfold pc_body, has_ilim, has_clim; rewrite existsb_app; apply orb_true_intro; left; reflexivity.
+  - apply IH.
+Qed.
+Lemma copy_tops_units m pts : units (copy_tops m pts).
+Proof.
+  unfold copy_tops. apply un_setter; [exact I|]. apply un_setter; [exact I|].
+  induction (fm_extensions m) as [|e r IH]; cbn [map app]; [apply pcs_copy_units|]. apply un_setter; [exact I|exact IH].
+Qed.
+Lemma pcs_copy_not_im : forall pcs pts, Forall not_im (pcs_copy pcs pts).
+Proof.
+  induction pcs as [|pc r IH]; intros [|p q]; cbn [pcs_copy]; try constructor; [exact I|].
+  unfold pc_body. rewrite <- app_assoc. apply Forall_app. split.
+  { apply Forall_forall. intros c Hc. apply in_map_iff in Hc as (x & <- & _). exact I. }
+  apply Forall_app. split.
+  { apply Forall_forall. intros c Hc. apply in_map_iff in Hc as (x & <- & _). exact I. }
+  constructor; [exact I|]. constructor; [exact I|apply IH].
+Qed.
+Lemma copy_calls_not_im m pts : Forall not_im (copy_calls m pts).
+Proof.
+  unfold copy_calls, copy_tops. cbn [app]. constructor; [exact I|]. constructor; [exact I|]. constructor; [exact I|].
+  rewrite <- app_assoc. apply Forall_app. split.
+  { apply Forall_forall. intros c Hc. apply in_map_iff in Hc as (x & <- & _). exact I. }
+  apply Forall_app. split; [apply pcs_copy_not_im|constructor; [exact I|constructor]].
+Qed.
+
+(** ** the abstract run of one copied point cloud *)
+Lemma arun_sets lv : forall fs a p, a_sub a = APc p ->
+  arun lv a (map PcSet fs) =
+  set_asub a (APc (mkApc (ap_proto p) (ap_bounds p) (fold_left (fun d f => pc_set f d) fs (ap_desc p)) (ap_fin p)
+                     (ap_cil p || existsb (fun f => match f with PfIntensityLimits _ => true | _ => false end) fs)
+                     (ap_ccl p || existsb (fun f => match f with PfColorLimits _ => true | _ => false end) fs)
+                     (ap_pts p))).
+Proof.
+  induction fs as [|f fs IH]; intros a p Ha.
+  - cbn [map arun fold_left existsb]. rewrite !orb_false_r. destruct a, p. cbn in *. subst. reflexivity.
+  - cbn [map arun astep]. rewrite Ha. erewrite IH by reflexivity. unfold set_asub. cbn. f_equal. f_equal. f_equal.
+    + destruct f; cbn; rewrite ?orb_true_r, ?orb_false_r; try reflexivity; destruct (ap_cil p); reflexivity.
+    + destruct f; cbn; rewrite ?orb_true_r, ?orb_false_r; try reflexivity; destruct (ap_ccl p); reflexivity.
+Qed.
+
+Lemma arun_points lv : forall pts a p, a_sub a = APc p ->
+  arun lv a (map PcAddPoint pts) =
+  set_asub a (APc (mkApc (ap_proto p) (fold_bounds (ap_proto p) pts (ap_bounds p)) (ap_desc p) (ap_fin p)
+                     (ap_cil p) (ap_ccl p) (ap_pts p ++ pts))).
+Proof.
+  induction pts as [|vs pts IH]; intros a p Ha.
+  - cbn [map arun fold_bounds fold_left]. rewrite app_nil_r. destruct a, p. cbn in *. subst. reflexivity.
+  - cbn [map arun astep]. rewrite Ha. erewrite IH by reflexivity. unfold set_asub. cbn. rewrite <- app_assoc. reflexivity.
+Qed.
+
+Lemma aacc_sets lv : forall fs a, aacc_calls lv a (map PcSet fs).
+Proof. induction fs as [|f fs IH]; intros a; cbn [map aacc_calls aacc]; auto. Qed.
+
+Lemma aacc_points lv : forall pts a p, a_sub a = APc p -> ap_fin p = false ->
+  Forall (representable_point (ap_proto p)) pts -> aacc_calls lv a (map PcAddPoint pts).
+Proof.
+  induction pts as [|vs pts IH]; intros a p Ha Hf Hr; [exact I|]. inversion Hr as [|? ? H1 H2]; subst.
+  cbn [map aacc_calls aacc]. rewrite Ha. split; [auto|]. cbn [astep]. rewrite Ha.
+  eapply IH; [reflexivity|exact Hf|exact H2].
+Qed.
+
+Definition push (a : astate) (x : pointcloud * list (list rvalue)) : astate :=
+  mkAs (a_root a) (a_exts a) (a_pcs a ++ [x]) ANone (a_fin a).
+
+Lemma arun_pc_copy lv a pc pts rest :
+  arun lv a (AddPointcloud (guid_of pc) (pc_prototype pc) :: pc_body pc pts ++ [PcFinalize; PcDrop] ++ rest) =
+  arun lv (push a (copied pc pts, pts)) rest.
+Proof.
+  cbn [arun astep]. unfold pc_body. rewrite <- app_assoc, arun_app.
+  erewrite arun_sets by reflexivity. rewrite arun_app. erewrite arun_points by reflexivity.
+  cbn [app arun astep set_asub a_sub a_root a_exts a_pcs a_fin ap_proto ap_bounds ap_desc ap_fin ap_cil ap_ccl ap_pts].
+  reflexivity.
+Qed.
+
+Lemma set_all_limits pc d :
+  pc_intensity_limits (set_all pc d) = pc_intensity_limits pc /\ pc_color_limits (set_all pc d) = pc_color_limits pc /\
+  pc_prototype (set_all pc d) = pc_prototype d /\ pc_guid (set_all pc d) = pc_guid d.
+Proof. destruct d, pc. cbn. auto. Qed.
+
+(** * 6. The copied descriptor is the original one *)
+Section CopyPc.
+Variables fmt64 fmt32 : N -> xstring.
+Hypothesis nan_text64 : forall b, fmt64 (canon64 b) = fmt64 b.
+Hypothesis nan_text32 : forall b, fmt32 (canon32 b) = fmt32 b.
+Notation FP := (fill_pc fmt64 fmt32).
+Notation FR := (fill_rec fmt64 fmt32).
+
+Lemma copied_fill_eq pc pts : consistent pc pts -> proto_canonical (pc_prototype pc) ->
+  FP (copied (FP pc) pts) = FP pc.
+Proof.
+  intros (C1 & C2 & C3 & C4 & C5 & g & C6) Hc. unfold copied.
+  change (pc_prototype (FP pc)) with (map FR (pc_prototype pc)).
+  rewrite (fold_bounds_fill fmt64 fmt32 _ _ _ Hc), bounds_new_fill.
+  destruct pc. cbn in C1, C2, C3, C4, C5, C6, Hc |- *.
+  subst. unfold fill_pc, set_all, pc_fields, guid_of, desc_new, desc_finish. cbn.
+  rewrite (fill_proto_idem fmt64 fmt32 nan_text64 nan_text32).
+  rewrite !(omap_idem _ _ (fill_il_idem fmt64 fmt32 nan_text64 nan_text32)),
+    !(omap_idem _ _ (fill_cl_idem fmt64 fmt32 nan_text64 nan_text32)),
+    !(omap_idem _ _ (fill_tr_idem fmt64 nan_text64)), !(omap_idem _ _ (fill_dt_idem fmt64 nan_text64)),
+    !(omap_idem _ _ (fill64_idem fmt64 nan_text64)).
+  reflexivity.
+Qed.
+End CopyPc.
+
+(** * 7. The abstract run of the whole copy *)
+Definition reg_calls (exts : list extension) : list wcall :=
+  map (fun e => RegisterExtension (e_namespace e) (e_url e)) exts.
+
+Lemma reg_run lv : forall exts a, exts_rep (a_exts a ++ exts) ->
+  aacc_calls lv a (reg_calls exts) /\
+  arun lv a (reg_calls exts) = mkAs (a_root a) (a_exts a ++ exts) (a_pcs a) (a_sub a) (a_fin a).
+Proof.
+  induction exts as [|e r IH]; intros a Hr.
+  - cbn [reg_calls map aacc_calls arun]. rewrite app_nil_r. split; [exact I|]. destruct a; reflexivity.
+  - cbn [reg_calls map aacc_calls arun aacc astep]. fold (reg_calls r).
+    assert (Hr' : exts_rep ((a_exts a ++ [mkExtension (e_namespace e) (e_url e)]) ++ r)).
+    { rewrite <- app_assoc. cbn [app]. destruct e; exact Hr. }
+    destruct (IH (mkAs (a_root a) (a_exts a ++ [mkExtension (e_namespace e) (e_url e)]) (a_pcs a) (a_sub a) (a_fin a)) Hr')
+      as [I1 I2].
+    split; [split; [|exact I1]|].
+    + destruct Hr as (F & Nn & Nu). apply Forall_app in F as [_ F]. apply Forall_inv in F.
+      destruct F as (E1 & E2 & E3 & E4 & E5 & E6). repeat (split; [assumption|]). split.
+      * rewrite registered_in. rewrite map_app in Nn. cbn [map] in Nn. apply NoDup_remove_2 in Nn.
+        intros Hin. apply Nn. apply in_or_app. left. exact Hin.
+      * rewrite url_in. rewrite map_app in Nu. cbn [map] in Nu. apply NoDup_remove_2 in Nu.
+        intros Hin. apply Nu. apply in_or_app. left. exact Hin.
+    + rewrite I2. cbn [a_root a_exts a_pcs a_sub a_fin]. rewrite <- app_assoc. destruct e; reflexivity.
+Qed.
+
+Section CopyRun.
+Variables fmt64 fmt32 : N -> xstring.
+Variable lv : xstring.
+Notation FP := (fill_pc fmt64 fmt32).
+Notation FR := (fill_rec fmt64 fmt32).
+
+Lemma limits_fill pc : custom_limits_ok true true (FP pc) = custom_limits_ok true true pc.
+Proof.
+  unfold custom_limits_ok. destruct pc. cbn. f_equal.
+  - destruct pc_intensity_limits as [[a b]|]; [|reflexivity]. cbn. unfold il_complete. cbn. destruct a, b; reflexivity.
+  - destruct pc_color_limits as [[a b c d e f]|]; [|reflexivity]. cbn. unfold cl_complete. cbn.
+    destruct a, b, c, d, e, f; reflexivity.
+Qed.
+
+Definition copied_pair (x : pointcloud * list (list rvalue)) := (copied (FP (fst x)) (snd x), snd x).
+
+Lemma copy_pcs_run : forall xs a, a_fin a = false -> a_sub a = ANone ->
+  Forall (pc_src_ok (a_exts a)) xs -> Forall (fun x => custom_limits_ok true true (fst x) = true) xs ->
+  let cs := pcs_copy (map (fun x => FP (fst x)) xs) (map snd xs) in
+  aacc_calls lv a cs /\
+  arun lv a cs = mkAs (a_root a) (a_exts a) (a_pcs a ++ map copied_pair xs) ANone (a_fin a).
+Proof.
+  induction xs as [|[pc pts] xs IH]; intros a Hf Hs Hok Hlim; cbv zeta.
+  - cbn [map pcs_copy aacc_calls arun]. rewrite app_nil_r. split; [exact I|]. destruct a; cbn in *; subst; reflexivity.
+  - inversion Hok as [|? ? Hx Hok']; subst. inversion Hlim as [|? ? Hl Hlim']; subst. cbn [fst snd] in *.
+    destruct Hx as (Hc & Hp & _). cbn [fst snd] in Hc, Hp.
+    cbn [map pcs_copy fst snd]. rewrite arun_pc_copy.
+    destruct (IH (push a (copied (FP pc) pts, pts)) Hf eq_refl Hok' Hlim') as [I1 I2]. cbv zeta in I1, I2.
+    split.
+    + cbn [aacc_calls aacc]. change (pc_prototype (FP pc)) with (map FR (pc_prototype pc)).
+      destruct (rep_of_checks _ _ (checks_fill fmt64 fmt32 _ _ Hc)) as [R1 R2].
+      split; [auto|]. unfold pc_body. rewrite <- app_assoc. apply aacc_calls_app. split; [apply aacc_sets|].
+      cbn [astep]. erewrite arun_sets by reflexivity. apply aacc_calls_app.
+      split.
+      { eapply aacc_points; [reflexivity|reflexivity|]. cbn [ap_proto]. rewrite Forall_forall in *. intros vs Hvs.
+        destruct (Hp vs Hvs) as [V1 _]. apply values_ok_representable. rewrite dtypes_fill. exact V1. }
+      erewrite arun_points by reflexivity. cbn [app aacc_calls aacc astep set_asub a_sub ap_fin ap_cil ap_ccl ap_desc].
+      split.
+      { split; [reflexivity|]. cbn [orb existsb pc_fields].
+        destruct (set_all_limits (FP pc) (desc_new (guid_of (FP pc)) (map FR (pc_prototype pc))
+                     (default_intensity_limits (map FR (pc_prototype pc))) (cl_of (map FR (pc_prototype pc))))) as (L1 & L2 & _).
+        unfold custom_limits_ok. unfold set_all in L1, L2. rewrite L1, L2.
+        change (custom_limits_ok true true (FP pc) = true). rewrite limits_fill. exact Hl. }
+      split; [exact I|].
+      match goal with |- aacc_calls lv ?s _ => replace s with (push a (copied (FP pc) pts, pts)) end; [exact I1|].
+      reflexivity.
+    + rewrite I2. cbn [push a_root a_exts a_pcs a_fin map]. rewrite <- app_assoc. reflexivity.
+Qed.
+
+End CopyRun.
+
+(** * 8. The whole copy on the abstract state *)
+Lemma good_new lv a g : g <> [] -> good lv (astep lv a (NewWriter g)).
+Proof.
+  intros H. cbn [astep]. split; [repeat split; try reflexivity; exact H|]. split; [repeat constructor|].
+  split; [constructor|exact I].
+Qed.
+
+Section CopyAbs.
+Variables fmt64 fmt32 : N -> xstring.
+Variable lv : xstring.
+Notation FP := (fill_pc fmt64 fmt32).
+
+(** the metadata a reader reports for the abstract state [a] (point cloud offsets are not used by the copy) *)
+Definition abs_view (a : astate) (imgs : list image) : file_meta :=
+  mkFileMeta (Spec.XeMetaOk.reader_root (fill_root fmt64 (a_root a))) (a_exts a) (map (fun x => FP (fst x)) (a_pcs a)) imgs.
+
+Definition copied_root (r : root) : root :=
+  mkRoot (rt_format r) (rt_guid r) (rt_major_version r) (rt_minor_version r) (rt_library_version r)
+         (option_map (fill_dt fmt64) (rt_creation r)) (rt_coordinate_metadata r).
+
+Theorem copy_abs : forall aP imgs, good lv aP ->
+  Forall (fun x => custom_limits_ok true true (fst x) = true) (a_pcs aP) ->
+  let P2 := copy_calls (abs_view aP imgs) (map snd (a_pcs aP)) in
+  aacc_calls lv a_init P2 /\
+  arun lv a_init P2 = mkAs (copied_root (a_root aP)) (a_exts aP) (map (copied_pair fmt64 fmt32) (a_pcs aP)) ANone true.
+Proof.
+  intros aP imgs (Hr & He & Hp & _) Hlim P2. subst P2. unfold copy_calls, copy_tops, abs_view.
+  destruct Hr as (R1 & R2 & R3 & R4 & R5).
+  destruct (a_root aP) as [f g ma mi l cr cm] eqn:Er. cbn in R1, R2, R3, R4, R5. subst.
+  cbn [fm_root fm_extensions fm_pointclouds Spec.XeMetaOk.reader_root fill_root rt_guid rt_coordinate_metadata rt_creation
+       rt_format rt_major_version rt_library_version].
+  cbn [app aacc_calls arun aacc astep a_init a_root a_exts a_pcs a_sub a_fin root_default rt_format].
+  fold (reg_calls (a_exts aP)). rewrite <- app_assoc.
+  set (a3 := mkAs _ [] [] ANone false).
+  destruct (reg_run lv (a_exts aP) a3 He) as [G1 G2]. cbn [a3 a_root a_exts a_pcs a_sub a_fin app] in G2.
+  rewrite aacc_calls_app, arun_app, G2.
+  set (a4 := mkAs _ (a_exts aP) [] ANone false).
+  destruct (copy_pcs_run fmt64 fmt32 lv (a_pcs aP) a4 eq_refl eq_refl Hp Hlim) as [G3 G4]. cbv zeta in G3, G4.
+  rewrite aacc_calls_app, arun_app, G4. cbn [a4 a_root a_exts a_pcs a_sub a_fin app aacc_calls arun aacc astep].
+  split; [auto 8|]. unfold copied_root. cbn. reflexivity.
+Qed.
+
+End CopyAbs.
+
+(** * 9. From [explains] to the abstract run: the points and types of the point cloud items *)
+Definition item_pcs (is : list FileBin.item) : list (list dtype * list (list rvalue)) :=
+  flat_map (fun i => match i with IPc dt pts => [(dt, pts)] | _ => [] end) is.
+Definition item_points (is : list FileBin.item) : list (list (list rvalue)) := map snd (item_pcs is).
+Definition pair_item (x : pointcloud * list (list rvalue)) := (proto_dtypes (pc_prototype (fst x)), snd x).
+
+Lemma item_pcs_app a b : item_pcs (a ++ b) = item_pcs a ++ item_pcs b.
+Proof. unfold item_pcs. apply flat_map_app. Qed.
+Lemma item_pcs_im : forall ibody, item_pcs (flat_map im_call_items ibody) = [].
+Proof.
+  induction ibody as [|c r IH]; [reflexivity|]. cbn [flat_map]. rewrite item_pcs_app, IH, app_nil_r.
+  destruct c; try reflexivity; cbn [im_call_items]; destruct mask; reflexivity.
+Qed.
+
+Lemma arun_body lv : forall body a p, a_sub a = APc p -> Forall is_pc_body body ->
+  exists p', arun lv a body = set_asub a (APc p') /\ ap_pts p' = ap_pts p ++ body_points body /\
+    pc_prototype (ap_desc p') = pc_prototype (ap_desc p).
+Proof.
+  induction body as [|c body IH]; intros a p Ha Hb.
+  - exists p. cbn [arun body_points]. rewrite app_nil_r. split; [destruct a; cbn in *; subst; reflexivity|auto].
+  - inversion Hb as [|? ? Hc Hb']; subst. destruct c; try (destruct Hc; fail); cbn [arun astep]; rewrite Ha.
+    + match goal with |- context [arun lv ?s body] => destruct (IH s _ eq_refl Hb') as (p' & E1 & E2 & E3) end.
+      exists p'. rewrite E1. split; [reflexivity|].
+      cbn [body_points]. split; [exact E2|]. rewrite E3. cbn [ap_desc]. apply pc_set_keeps.
+    + match goal with |- context [arun lv ?s body] => destruct (IH s _ eq_refl Hb') as (p' & E1 & E2 & E3) end.
+      exists p'. rewrite E1. split; [reflexivity|].
+      cbn [body_points]. cbn [ap_pts ap_desc] in E2, E3. rewrite E2, <- app_assoc. auto.
+Qed.
+
+Lemma arun_im_body lv : forall ibody a, Forall is_im_body ibody -> arun lv a ibody = a.
+Proof.
+  induction ibody as [|c r IH]; intros a Hb; [reflexivity|]. inversion Hb as [|? ? Hc Hb']; subst.
+  destruct c; try (destruct Hc; fail); cbn [arun astep]; apply IH; exact Hb'.
+Qed.
+
+Lemma explains_abs lv : forall tops is os pcs ims bl, explains tops is os pcs ims bl ->
+  forall a, a_sub a = ANone ->
+  let a' := arun lv a tops in
+  a_sub a' = ANone /\ a_fin a' = a_fin a /\
+  exists new, a_pcs a' = a_pcs a ++ new /\ map pair_item new = item_pcs is.
+Proof.
+  induction 1 as [|c r is os pcs ims bl Hs _ IH|data off ln r is os pcs ims bl _ IH
+                 |guid proto body off n pc r is os pcs ims bl Hb _ _ _ _ _ _ _ IH
+                 |guid ibody iouts r is os pcs ims bl Hb _ _ IH]; intros a Ha; cbv zeta.
+  - cbn [arun]. split; [exact Ha|]. split; [reflexivity|]. exists []. rewrite app_nil_r. auto.
+  - cbn [arun]. assert (E : a_sub (astep lv a c) = ANone /\ a_fin (astep lv a c) = a_fin a /\ a_pcs (astep lv a c) = a_pcs a).
+    { destruct c; try (destruct Hs; fail); cbn [astep]; try destruct (a_root a); cbn; auto. }
+    destruct E as (E1 & E2 & E3). destruct (IH _ E1) as (I1 & I2 & new & I3 & I4). cbv zeta in *.
+    split; [exact I1|]. split; [congruence|]. exists new. rewrite I3, E3. auto.
+  - cbn [arun astep]. destruct (IH _ Ha) as (I1 & I2 & new & I3 & I4). split; [exact I1|]. split; [exact I2|].
+    exists new. auto.
+  - cbn [arun astep]. rewrite arun_app.
+    match goal with |- context [arun lv ?s body] => destruct (arun_body lv body s _ eq_refl Hb) as (p' & E1 & E2 & E3) end.
+    rewrite E1. unfold set_asub.
+    cbn [app arun astep a_sub a_root a_exts a_pcs a_fin]. unfold set_asub. cbn [a_sub a_root a_exts a_pcs a_fin].
+    match goal with |- context [arun lv ?s r] => destruct (IH s eq_refl) as (I1 & I2 & new & I3 & I4) end.
+    cbv zeta in *. cbn [a_pcs a_fin] in I2, I3. split; [exact I1|]. split; [exact I2|].
+    eexists (_ :: new). rewrite I3, <- app_assoc. split; [reflexivity|].
+    cbn [map item_pcs flat_map app]. fold (item_pcs is). rewrite I4. f_equal. unfold pair_item. cbn [fst snd ap_pts] in *.
+    destruct (desc_finish_bounds (ap_desc p') (ap_bounds p') 0 (len (ap_pts p'))) as (_ & _ & _ & _ & _ & _ & D7).
+    rewrite D7, E3, E2. reflexivity.
+  - cbn [arun astep]. rewrite arun_app, (arun_im_body lv ibody) by exact Hb. cbn [app arun astep]. unfold set_asub. cbn [a_sub a_root a_exts a_pcs a_fin].
+    match goal with |- context [arun lv ?s r] => destruct (IH s eq_refl) as (I1 & I2 & new & I3 & I4) end.
+    cbv zeta in *. cbn [a_pcs a_fin] in I2, I3. split; [exact I1|]. split; [exact I2|].
+    exists new. split; [exact I3|]. rewrite item_pcs_app, item_pcs_im. exact I4.
+Qed.
+
+Lemma explains_no_img : forall tops is os pcs ims bl, explains tops is os pcs ims bl -> Forall not_im tops -> ims = [].
+Proof.
+  induction 1 as [|c r is os pcs ims bl _ _ IH|data off ln r is os pcs ims bl _ IH
+                 |guid proto body off n pc r is os pcs ims bl _ _ _ _ _ _ _ _ IH
+                 |guid ibody iouts r is os pcs ims bl _ _ _ IH]; intros Hn.
+  - reflexivity.
+  - apply IH. apply (Forall_inv_tail Hn).
+  - apply IH. apply (Forall_inv_tail Hn).
+  - apply IH. apply Forall_inv_tail in Hn. apply Forall_app in Hn as [_ Hn]. apply Forall_app in Hn as [_ Hn]. exact Hn.
+  - exfalso. apply (Forall_inv Hn).
+Qed.
+
+Lemma explains_protos : forall tops is os pcs ims bl, explains tops is os pcs ims bl ->
+  Forall (fun pc => exists guid, In (AddPointcloud guid (pc_prototype pc)) tops) pcs.
+Proof.
+  induction 1 as [|c r is os pcs ims bl _ _ IH|data off ln r is os pcs ims bl _ IH
+                 |guid proto body off n pc r is os pcs ims bl _ _ _ _ Hpr _ _ _ IH
+                 |guid ibody iouts r is os pcs ims bl _ _ _ IH].
+  - constructor.
+  - eapply Forall_impl; [|exact IH]. intros pc (g & Hin). exists g. right. exact Hin.
+  - eapply Forall_impl; [|exact IH]. intros pc (g & Hin). exists g. right. exact Hin.
+  - constructor; [exists guid; left; rewrite Hpr; reflexivity|].
+    eapply Forall_impl; [|exact IH]. intros q (g & Hin). exists g. right. apply in_or_app. right. apply in_or_app. right. exact Hin.
+  - eapply Forall_impl; [|exact IH]. intros q (g & Hin). exists g. right. apply in_or_app. right. apply in_or_app. right. exact Hin.
+Qed.
+
+(** * 10. The theorem on the real writer *)
+From E57 Require Import Spec.XeMetaOk.
+
+Lemma no_off_fields pc :
+  guid_of (pc_no_off pc) = guid_of pc /\ pc_prototype (pc_no_off pc) = pc_prototype pc /\
+  pc_fields (pc_no_off pc) = pc_fields pc /\
+  custom_limits_ok true true (pc_no_off pc) = custom_limits_ok true true pc.
+Proof. destruct pc. repeat split; reflexivity. Qed.
+
+Lemma pcs_copy_no_off : forall l pts, pcs_copy (map pc_no_off l) pts = pcs_copy l pts.
+Proof.
+  induction l as [|pc r IH]; intros [|p q]; cbn [map pcs_copy]; try reflexivity.
+  destruct (no_off_fields pc) as (E1 & E2 & E3 & _). unfold pc_body. rewrite E1, E2, E3, IH. reflexivity.
+Qed.
+
+Lemma limits_complete_custom pc : pc_limits_complete pc = custom_limits_ok true true pc.
+Proof. reflexivity. Qed.
+
+Lemma copied_proto pc pts : pc_prototype (copied pc pts) = pc_prototype pc.
+Proof.
+  unfold copied. destruct (desc_finish_bounds (set_all pc (desc_new (guid_of pc) (pc_prototype pc)
+    (default_intensity_limits (pc_prototype pc)) (cl_of (pc_prototype pc))))
+    (fold_bounds (pc_prototype pc) pts (bounds_new (pc_prototype pc))) 0 (len pts)) as (_ & _ & _ & _ & _ & _ & D7).
+  rewrite D7. destruct (set_all_limits pc (desc_new (guid_of pc) (pc_prototype pc)
+    (default_intensity_limits (pc_prototype pc)) (cl_of (pc_prototype pc)))) as (_ & _ & S3 & _). rewrite S3. reflexivity.
+Qed.
+
+Section Copy.
+Variables fmt64 fmt32 : N -> xstring.
+Variable version : xstring.
+Hypothesis nan_text64 : forall b, fmt64 (canon64 b) = fmt64 b.
+Hypothesis nan_text32 : forall b, fmt32 (canon32 b) = fmt32 b.
+Notation G := (gen_xml_full fmt64 fmt32).
+Notation L := (lib_version_text version).
+Notation FP := (fill_pc fmt64 fmt32).
+Notation FR := (fill_rec fmt64 fmt32).
+
+Lemma fill_no_off pc : FP (pc_no_off pc) = pc_no_off (FP pc).
+Proof. destruct pc. reflexivity. Qed.
+
+Lemma map_no_off_fill l : map (fun pc => pc_no_off (FP pc)) l = map FP (map pc_no_off l).
+Proof. rewrite map_map. apply map_ext. intros pc. symmetry. apply fill_no_off. Qed.
+
+(** the metadata as written, the file offsets of the point clouds erased *)
+Definition content_view (st : wstate) : file_meta :=
+  mkFileMeta (fill_root fmt64 (ws_root st)) (ws_exts st) (map (fun pc => pc_no_off (FP pc)) (ws_pcs st)) (ws_imgs st).
+
+Lemma copy_calls_abs st a pts : absr st a ->
+  copy_calls (reader_view (fill_meta fmt64 fmt32 (ws_meta st))) pts = copy_calls (abs_view fmt64 fmt32 a (map (fill_im fmt64) (ws_imgs st))) pts.
+Proof.
+  intros (Ar & Ae & Ap & _). unfold copy_calls, copy_tops, reader_view, fill_meta, abs_view, ws_meta.
+  cbn [fm_root fm_extensions fm_pointclouds]. rewrite Ar, Ae. f_equal. f_equal. f_equal. f_equal. f_equal.
+  rewrite <- (pcs_copy_no_off (map FP (ws_pcs st))). rewrite map_map.
+  rewrite (map_ext _ (fun pc => FP (pc_no_off pc))) by (intros; symmetry; apply fill_no_off).
+  rewrite <- (map_map pc_no_off FP), Ap, map_map. reflexivity.
+Qed.
+
+Lemma copied_pairs_fill xs :
+  Forall (fun x => consistent (fst x) (snd x) /\ proto_canonical (pc_prototype (fst x))) xs ->
+  map (fun x => FP (fst x)) (map (copied_pair fmt64 fmt32) xs) = map (fun x => FP (fst x)) xs.
+Proof.
+  intros H. rewrite map_map. apply map_ext_in. intros x Hx. rewrite Forall_forall in H. destruct (H x Hx) as [C1 C2].
+  unfold copied_pair. cbn [fst]. apply (copied_fill_eq fmt64 fmt32 nan_text64 nan_text32); assumption.
+Qed.
+
+Lemma copy_pcs_wf exts : forall xs, Forall (pc_src_ok exts) xs ->
+  Forall call_wf (pcs_copy (map (fun x => FP (fst x)) xs) (map snd xs)).
+Proof.
+  induction xs as [|[pc pts] xs IH]; intros H; [constructor|]. inversion H as [|? ? Hx H']; subst.
+  destruct Hx as ((_ & _ & _ & Hi) & Hp & _). cbn [fst snd] in Hi, Hp. cbn [map pcs_copy fst snd].
+  constructor; [cbn [call_wf]; apply (i64_fill fmt64 fmt32); exact Hi|].
+  unfold pc_body. rewrite <- app_assoc. apply Forall_app. split.
+  { apply Forall_forall. intros c Hc. apply in_map_iff in Hc as (x & <- & _). exact I. }
+  apply Forall_app. split.
+  { apply Forall_forall. intros c Hc. apply in_map_iff in Hc as (vs & <- & Hvs). cbn [call_wf].
+    rewrite Forall_forall in Hp. apply (Hp vs Hvs). }
+  constructor; [exact I|]. constructor; [exact I|]. apply IH. exact H'.
+Qed.
+
+Theorem copy_idempotent_partial : forall guid tops s st rs,
+  units tops -> Forall not_im tops -> Forall call_wf tops ->
+  (forall g proto, In (AddPointcloud g proto) tops -> proto_canonical proto) ->
+  acceptable_calls G L ws_init ls_init (NewWriter guid :: tops ++ [Finalize]) ->
+  wrun (writer_run fmt64 fmt32 version (NewWriter guid :: tops ++ [Finalize])) pw0 = (s, Ok (st, rs)) ->
+  forall is os bl, explains tops is os (ws_pcs st) (ws_imgs st) bl ->
+  let m' := reader_view (fill_meta fmt64 fmt32 (ws_meta st)) in
+  let tops2 := copy_tops m' (item_points is) in
+  let P2 := copy_calls m' (item_points is) in
+  P2 = NewWriter (rt_guid (ws_root st)) :: tops2 ++ [Finalize] /\
+  units tops2 /\ Forall not_im tops2 /\ Forall call_wf tops2 /\
+  acceptable_calls G L ws_init ls_init P2 /\
+  exists s2 st2 rs2,
+    wrun (writer_run fmt64 fmt32 version P2) pw0 = (s2, Ok (st2, rs2)) /\ Forall res_ok rs2 /\
+    content_view st2 = content_view st /\
+    forall is2 os2 bl2, explains tops2 is2 os2 (ws_pcs st2) (ws_imgs st2) bl2 ->
+      item_pcs is2 = item_pcs is /\
+      copy_calls (reader_view (fill_meta fmt64 fmt32 (ws_meta st2))) (item_points is2) = P2.
+Proof.
+  intros guid tops s st rs Hu Hni Hwf Hcan Hacc Hrun is os bl Hex m' tops2 P2.
+  set (P := NewWriter guid :: tops ++ [Finalize]) in *.
+  assert (HwfP : Forall call_wf P).
+  { constructor; [exact I|]. apply Forall_app. split; [exact Hwf|]. constructor; [exact I|constructor]. }
+  (* the original program on the abstract state *)
+  destruct (api_accepts_abs fmt64 fmt32 version P HwfP (complete_borrow guid tops Hu) Hacc)
+    as (s' & st' & rs' & l & Hrun' & Hspec & Hok & Hinv & Habs).
+  rewrite Hrun in Hrun'. inversion Hrun'; subst s' st' rs'. clear Hrun'.
+  set (a1 := astep L a_init (NewWriter guid)).
+  set (aT := arun L a1 tops).
+  assert (EaP : arun L a_init P = astep L aT Finalize).
+  { unfold P. cbn [arun]. fold a1. rewrite arun_app. reflexivity. }
+  assert (Hguid : guid <> []) by (cbn [acceptable_calls] in Hacc; destruct Hacc as [[_ H] _]; exact H).
+  assert (Hgood : good L (arun L a_init P)).
+  { unfold P in Hacc |- *. cbn [acceptable_calls] in Hacc. destruct Hacc as [Ha1 Ha2].
+    destruct (accept_step_abs G L (gen_full_ok fmt64 fmt32) ws_init ls_init (NewWriter guid) BTop a_init ws_inv_init)
+      as (l1 & st1 & x & Hrun1 & _ & Hinv1 & _ & Hg1 & Hk1 & Habs1);
+      [intros H; discriminate H|exact I|reflexivity|exact Ha1|exact absr_init|].
+    rewrite Hrun1 in Ha2. cbn [arun].
+    apply (follow_run G L (gen_full_ok fmt64 fmt32) (tops ++ [Finalize]) st1 l1 _ Hinv1 Hg1); try assumption.
+    - apply Forall_app. split; [exact Hwf|constructor; [exact I|constructor]].
+    - rewrite Hk1. apply units_borrow; [exact Hu|exact I].
+    - apply good_new. exact Hguid. }
+  destruct (explains_abs L tops is os _ _ bl Hex a1 eq_refl) as (Hs1 & Hf1 & new & Hn1 & Hn2). cbv zeta in Hs1, Hf1, Hn1.
+  fold aT in Hs1, Hf1, Hn1. cbn [a1 astep a_pcs app] in Hn1.
+  set (aP := arun L a_init P) in *.
+  assert (Epcs : a_pcs aP = new) by (rewrite EaP; cbn [astep a_pcs]; exact Hn1).
+  assert (Epts : map snd (a_pcs aP) = item_points is).
+  { rewrite Epcs. unfold item_points. rewrite <- Hn2, map_map. reflexivity. }
+  pose proof Habs as (Ar & Ae & Ap & Af & _).
+  (* limits, canonical prototypes, no images *)
+  assert (Hlim : Forall (fun x => custom_limits_ok true true (fst x) = true) (a_pcs aP)).
+  { pose proof (explains_limits_complete _ _ _ _ _ _ Hex) as Hl. rewrite forallb_forall in Hl.
+    apply Forall_forall. intros x Hx.
+    assert (Hin : In (fst x) (map pc_no_off (ws_pcs st))) by (rewrite Ap; apply in_map; exact Hx).
+    apply in_map_iff in Hin as (pc & Hpc & Hin). rewrite <- Hpc.
+    destruct (no_off_fields pc) as (_ & _ & _ & E). rewrite E, <- limits_complete_custom. apply Hl. exact Hin. }
+  assert (Hcanon : Forall (fun x => consistent (fst x) (snd x) /\ proto_canonical (pc_prototype (fst x))) (a_pcs aP)).
+  { destruct Hgood as (_ & _ & Hp & _). pose proof (explains_protos _ _ _ _ _ _ Hex) as Hpr.
+    rewrite Forall_forall in *. intros x Hx. destruct (Hp x Hx) as (_ & _ & Hc). split; [exact Hc|].
+    assert (Hin : In (fst x) (map pc_no_off (ws_pcs st))) by (rewrite Ap; apply in_map; exact Hx).
+    apply in_map_iff in Hin as (pc & Hpc & Hin). rewrite <- Hpc.
+    destruct (no_off_fields pc) as (_ & E & _). rewrite E. destruct (Hpr pc Hin) as (g & Hg). apply (Hcan g _ Hg). }
+  pose proof (explains_no_img _ _ _ _ _ _ Hex Hni) as Himg.
+  (* the copy, on the abstract state *)
+  assert (EP2 : P2 = copy_calls (abs_view fmt64 fmt32 aP (map (fill_im fmt64) (ws_imgs st))) (map snd (a_pcs aP))).
+  { unfold P2, m'. rewrite Epts. apply copy_calls_abs. exact Habs. }
+  destruct (copy_abs fmt64 fmt32 L aP (map (fill_im fmt64) (ws_imgs st)) Hgood Hlim) as [Hacc2 Hrun2]. cbv zeta in Hacc2, Hrun2.
+  rewrite <- EP2 in Hacc2, Hrun2.
+  assert (Hu2 : units tops2) by apply copy_tops_units.
+  assert (Hni2 : Forall not_im tops2).
+  { pose proof (copy_calls_not_im m' (item_points is)) as H. unfold copy_calls in H.
+    apply Forall_inv_tail in H. apply Forall_app in H as [H _]. exact H. }
+  assert (Hwf2 : Forall call_wf tops2).
+  { unfold tops2, copy_tops, m'. constructor; [exact I|]. constructor; [exact I|]. apply Forall_app. split.
+    { apply Forall_forall. intros c Hc. apply in_map_iff in Hc as (x & <- & _). exact I. }
+    cbn [reader_view fill_meta fm_pointclouds ws_meta].
+    rewrite <- (pcs_copy_no_off (map FP (ws_pcs st))), map_map.
+    rewrite (map_ext _ (fun pc => FP (pc_no_off pc))) by (intros; symmetry; apply fill_no_off).
+    rewrite <- (map_map pc_no_off FP), Ap, map_map, <- Epts.
+    destruct Hgood as (_ & _ & Hp & _). apply (copy_pcs_wf _ _ Hp). }
+  assert (HP2 : P2 = NewWriter (rt_guid (ws_root st)) :: tops2 ++ [Finalize]).
+  { unfold P2, copy_calls, tops2, m'. cbn. destruct (ws_root st). reflexivity. }
+  assert (HwfP2 : Forall call_wf P2).
+  { rewrite HP2. constructor; [exact I|]. apply Forall_app. split; [exact Hwf2|constructor; [exact I|constructor]]. }
+  assert (Hb2 : borrow_ok BClosed P2) by (rewrite HP2; apply complete_borrow; exact Hu2).
+  assert (HACC2 : acceptable_calls G L ws_init ls_init P2).
+  { apply (lift_acc G L (gen_full_ok fmt64 fmt32) P2 ws_init ls_init a_init ws_inv_init); try assumption.
+    - intros H; discriminate H.
+    - unfold P2. apply copy_calls_not_im.
+    - exact absr_init. }
+  split; [exact HP2|]. split; [exact Hu2|]. split; [exact Hni2|]. split; [exact Hwf2|]. split; [exact HACC2|].
+  destruct (api_accepts_abs fmt64 fmt32 version P2 HwfP2 Hb2 HACC2) as (s2 & st2 & rs2 & l2 & Hr2 & Hspec2 & Hok2 & Hinv2 & Habs2).
+  exists s2, st2, rs2. split; [exact Hr2|]. split; [exact Hok2|].
+  rewrite Hrun2 in Habs2. pose proof Habs2 as (Ar2 & Ae2 & Ap2 & _). cbn [a_root a_exts a_pcs] in Ar2, Ae2, Ap2.
+  (* the images of the copy *)
+  assert (Himg2 : ws_imgs st2 = []).
+  { rewrite HP2 in Hspec2. unfold writer_run in Hspec2.
+    destruct (complete_prog G L _ tops2 l2 st2 rs2 Hu2 Hwf2 Hspec2 Hok2) as (is2 & os2 & xml2 & bl2 & st3 & Hex2 & _).
+    apply (explains_no_img _ _ _ _ _ _ Hex2 Hni2). }
+  assert (Efill : map (fun pc => pc_no_off (FP pc)) (ws_pcs st2) = map (fun pc => pc_no_off (FP pc)) (ws_pcs st)).
+  { rewrite !map_no_off_fill, Ap2, Ap, !map_map.
+    pose proof (copied_pairs_fill _ Hcanon) as H. rewrite map_map in H. exact H. }
+  split.
+  { unfold content_view. rewrite Efill, Ae2, Ae, Himg2, Himg, Ar2, <- Ar. f_equal.
+    destruct (ws_root st). unfold copied_root, fill_root. cbn.
+    rewrite (omap_idem _ _ (fill_dt_idem fmt64 nan_text64)). reflexivity. }
+  intros is2 os2 bl2 Hex2.
+  set (a1' := astep L a_init (NewWriter (rt_guid (ws_root st)))).
+  destruct (explains_abs L tops2 is2 os2 _ _ bl2 Hex2 a1' eq_refl) as (_ & _ & new2 & Hm1 & Hm2). cbv zeta in Hm1.
+  cbn [a1' astep a_pcs app] in Hm1.
+  assert (Enew2 : new2 = map (copied_pair fmt64 fmt32) (a_pcs aP)).
+  { rewrite <- Hm1. pose proof Hrun2 as H. rewrite HP2 in H. cbn [arun] in H. fold a1' in H. rewrite arun_app in H.
+    cbn [arun astep] in H. inversion H. reflexivity. }
+  assert (Eitems : item_pcs is2 = item_pcs is).
+  { rewrite <- Hm2, Enew2, <- Hn2, <- Epcs, map_map. apply map_ext. intros x. unfold pair_item, copied_pair. cbn [fst snd].
+    rewrite copied_proto. change (pc_prototype (FP (fst x))) with (map FR (pc_prototype (fst x))). rewrite dtypes_fill. reflexivity. }
+  split; [exact Eitems|].
+  rewrite (copy_calls_abs st2 _ _ Habs2), EP2. unfold item_points. rewrite Eitems. fold (item_points is). rewrite <- Epts.
+  unfold copy_calls, copy_tops, abs_view. cbn [fm_root fm_extensions fm_pointclouds a_root a_exts a_pcs].
+  rewrite (copied_pairs_fill _ Hcanon).
+  destruct (a_root aP). unfold copied_root, reader_root, fill_root. cbn.
+  rewrite (omap_idem _ _ (fill_dt_idem fmt64 nan_text64)). reflexivity.
+Qed.
+
+End Copy.
+
+Print Assumptions copy_idempotent_partial.
+
+(** * 11. The calls of the copy are inside the quantifier of the read-back theorem
+    ([call_ok] of Proofs/WapiFullInv.v: strings of XML characters, limits that are i64 values),
+    so [C10_accepted_reads_back] / [api_roundtrip] apply to the copy. *)
+From E57 Require Import Spec.XmlRender Spec.XgWriterOk Proofs.WapiFullInv.
+
+Section CopyOk.
+Variables fmt64 fmt32 : N -> xstring.
+Notation FP := (fill_pc fmt64 fmt32).
+
+Definition call_extra (c : wcall) : Prop :=
+  match c with
+  | NewWriter guid => string_ok guid = true
+  | SetCoordinateMetadata v => opt_string_ok v = true
+  | RegisterExtension ns url => chars_ok url = true
+  | AddPointcloud guid proto => string_ok guid = true
+  | PcSet f => pc_field_ok f
+  | AddImage guid => string_ok guid = true
+  | ImSet f => im_field_ok f
+  | _ => True
+  end.
+Lemma call_ok_split c : call_ok c <-> call_wf c /\ call_extra c.
+Proof. unfold call_ok, call_extra. destruct c; tauto. Qed.
+
+Lemma lv_ok_fill v : lv_ok (fill_lv fmt64 fmt32 v) = lv_ok v.
+Proof. destruct v; reflexivity. Qed.
+Lemma il_ok_fill l : ofo il_ok (option_map (fill_il fmt64 fmt32) l) = ofo il_ok l.
+Proof.
+  destruct l as [[a b]|]; [|reflexivity]. cbn. unfold il_ok. cbn. destruct a, b; cbn; rewrite ?lv_ok_fill; reflexivity.
+Qed.
+Lemma cl_ok_fill l : ofo cl_ok (option_map (fill_cl fmt64 fmt32) l) = ofo cl_ok l.
+Proof.
+  destruct l as [[a b c d e f]|]; [|reflexivity]. cbn. unfold cl_ok. cbn.
+  destruct a, b, c, d, e, f; cbn; rewrite ?lv_ok_fill; reflexivity.
+Qed.
+
+Lemma pc_copy_extra exts : forall pcs pts, Forall (pc_good exts) pcs -> Forall call_extra (pcs_copy (map FP pcs) pts).
+Proof.
+  induction pcs as [|pc r IH]; intros [|p q] H; cbn [map pcs_copy]; try constructor.
+  - inversion H as [|? ? (_ & _ & Hs & _) _]; subst. cbn [call_extra]. unfold pc_strings in Hs.
+    repeat (apply andb_prop in Hs as [Hs ?]). destruct pc. cbn in *. unfold guid_of. cbn.
+    destruct pc_guid; [assumption|reflexivity].
+  - inversion H as [|? ? (_ & _ & Hs & _ & Hil & Hcl) H']; subst. unfold pc_body. rewrite <- app_assoc. apply Forall_app. split.
+    { unfold pc_strings in Hs. repeat (apply andb_prop in Hs as [Hs ?]).
+      destruct pc. cbn in *. repeat constructor; cbn [call_extra pc_field_ok]; try assumption; try exact I.
+      - rewrite il_ok_fill. exact Hil.
+      - rewrite cl_ok_fill. exact Hcl. }
+    apply Forall_app. split.
+    { apply Forall_forall. intros c Hc. apply in_map_iff in Hc as (x & <- & _). exact I. }
+    constructor; [exact I|]. constructor; [exact I|]. apply IH. exact H'.
+Qed.
+
+Theorem copy_calls_ok : forall st pts, meta_inv st ->
+  Forall call_wf (copy_calls (reader_view (fill_meta fmt64 fmt32 (ws_meta st))) pts) ->
+  Forall call_ok (copy_calls (reader_view (fill_meta fmt64 fmt32 (ws_meta st))) pts).
+Proof.
+  intros st pts (He & Hr & Hp & _) Hwf.
+  assert (Hx : Forall call_extra (copy_calls (reader_view (fill_meta fmt64 fmt32 (ws_meta st))) pts)).
+  { unfold copy_calls, copy_tops, reader_view, fill_meta, ws_meta. cbn [fm_root fm_extensions fm_pointclouds app].
+    destruct Hr as (_ & _ & R3 & _ & R5). destruct (ws_root st). cbn in R3, R5 |- *.
+    constructor; [exact R3|]. constructor; [exact R5|]. constructor; [exact I|].
+    rewrite <- app_assoc. apply Forall_app. split.
+    { destruct He as (F & _). apply Forall_forall. intros c Hc. apply in_map_iff in Hc as (e & <- & Hin).
+      rewrite Forall_forall in F. destruct (F e Hin) as (_ & _ & _ & H). exact H. }
+    apply Forall_app. split; [apply (pc_copy_extra (ws_exts st)); exact Hp|constructor; [exact I|constructor]]. }
+  rewrite Forall_forall in *. intros c Hc. apply call_ok_split. split; [apply Hwf|apply Hx]; exact Hc.
+Qed.
+
+End CopyOk.
+
+(** * 12. Reading the copy *)
+From E57 Require Import Model.PagedReader Model.QueueReader Model.ReaderOpen Model.XmlTree Model.XmlParse Model.XmlExtract
+  Proofs.C04Compose Proofs.WapiFull.
+
+Section CopyRead.
+Variables fmt64 fmt32 : N -> xstring.
+Variables pf64 pf32 : xstr -> option N.
+Variable fdiv : N -> Z -> N.
+Variable version : xstring.
+Hypothesis plain64 : forall b, plain_text (fmt64 b) = true.
+Hypothesis plain32 : forall b, plain_text (fmt32 b) = true.
+Hypothesis back64 : forall b, pf64 (fmt64 b) = Some (canon64 b).
+Hypothesis back32 : forall b, pf32 (fmt32 b) = Some (canon32 b).
+Hypothesis version_ok : string_ok (lib_version_text version) = true.
+Hypothesis nan_text64 : forall b, fmt64 (canon64 b) = fmt64 b.
+Hypothesis nan_text32 : forall b, fmt32 (canon32 b) = fmt32 b.
+Notation G := (gen_xml_full fmt64 fmt32).
+Notation L := (lib_version_text version).
+
+Theorem copy_reads_back_partial : forall guid tops s st rs,
+  units tops -> Forall not_im tops ->
+  Forall call_ok (NewWriter guid :: tops ++ [Finalize]) ->
+  (forall g proto, In (AddPointcloud g proto) tops -> proto_canonical proto) ->
+  acceptable_calls G L ws_init ls_init (NewWriter guid :: tops ++ [Finalize]) ->
+  wrun (writer_run fmt64 fmt32 version (NewWriter guid :: tops ++ [Finalize])) pw0 = (s, Ok (st, rs)) ->
+  forall is os bl, explains tops is os (ws_pcs st) (ws_imgs st) bl ->
+  let m' := reader_view (fill_meta fmt64 fmt32 (ws_meta st)) in
+  let tops2 := copy_tops m' (item_points is) in
+  let P2 := copy_calls m' (item_points is) in
+  exists s2 st2 rs2,
+    wrun (writer_run fmt64 fmt32 version P2) pw0 = (s2, Ok (st2, rs2)) /\ Forall res_ok rs2 /\
+    content_view fmt64 fmt32 st2 = content_view fmt64 fmt32 st /\
+    (forallb pc_u64 (ws_pcs st2) = true -> forallb im_ok (ws_imgs st2) = true -> len (ws_exts st2) < 65535 ->
+     (forall xml, gen_root (fill_meta fmt64 fmt32 (ws_meta st2)) = Ok xml -> len xml <= MAX_XML_SIZE) ->
+     len (d_bytes (pw_dev (fst (pw_flush s2)))) < 2 ^ 64 ->
+     exists is2 os2 xml2 bl2,
+       explains tops2 is2 os2 (ws_pcs st2) (ws_imgs st2) bl2 /\
+       item_pcs is2 = item_pcs is /\
+       copy_calls (reader_view (fill_meta fmt64 fmt32 (ws_meta st2))) (item_points is2) = P2 /\
+       let f := d_bytes (pw_dev (fst (pw_flush s2))) in
+       all_pages_valid f = true /\
+       exists rs0 h d',
+         reader_open (dev_init f None) = (d', Ok (rs0, h, xml2)) /\
+         read_meta pf64 pf32 fdiv xml2 = Ok (reader_view (fill_meta fmt64 fmt32 (ws_meta st2))) /\
+         Forall2 (reads_back rs0) is2 os2).
+Proof.
+  intros guid tops s st rs Hu Hni Hcalls Hcan Hacc Hrun is os bl Hex m' tops2 P2.
+  assert (Hwft : Forall call_wf tops).
+  { apply Forall_inv_tail in Hcalls. apply Forall_app in Hcalls as [H _]. rewrite Forall_forall in *.
+    intros c Hc. apply (H c Hc). }
+  destruct (copy_idempotent_partial fmt64 fmt32 version nan_text64 nan_text32 guid tops s st rs Hu Hni Hwft Hcan Hacc Hrun
+              is os bl Hex) as (HP2 & Hu2 & Hni2 & Hwf2 & Hacc2 & s2 & st2 & rs2 & Hr2 & Hok2 & Hcv & Hrest).
+  fold m' in HP2, Hu2, Hni2, Hwf2, Hacc2, Hr2, Hrest. fold tops2 in HP2, Hu2, Hni2, Hwf2, Hrest. fold P2 in HP2, Hacc2, Hr2, Hrest.
+  exists s2, st2, rs2. split; [exact Hr2|]. split; [exact Hok2|]. split; [exact Hcv|].
+  intros Hu64 Him Hext Hxml Hsz.
+  (* the metadata invariant of the original's final state *)
+  destruct (wrun_image _ (writer_run fmt64 fmt32 version (NewWriter guid :: tops ++ [Finalize]))) as (Hres & _ & _).
+  rewrite Hrun in Hres. cbn [snd] in Hres.
+  destruct (wrun_spec (writer_run fmt64 fmt32 version (NewWriter guid :: tops ++ [Finalize])) ls_init) as [l r] eqn:Espec.
+  cbn [snd] in Hres. subst r.
+  pose proof (meta_run G L (gen_full_total fmt64 fmt32) version_ok _ ws_init ls_init l st rs ws_inv_init meta_inv_init Hcalls Espec)
+    as Hmeta.
+  assert (Hok2' : Forall call_ok P2).
+  { apply (copy_calls_ok fmt64 fmt32 st (item_points is) Hmeta). fold m'. fold P2. rewrite HP2.
+    constructor; [exact I|]. apply Forall_app. split; [exact Hwf2|constructor; [exact I|constructor]]. }
+  rewrite HP2 in Hok2', Hr2.
+  destruct (accepted_reads_back fmt64 fmt32 pf64 pf32 fdiv version plain64 plain32 back64 back32 version_ok
+              _ tops2 s2 st2 rs2 Hu2 Hok2' Hr2 Hok2 Hu64 Him Hext Hxml Hsz)
+    as (is2 & os2 & xml2 & bl2 & Hex2 & _ & _ & Hfile).
+  destruct (Hrest is2 os2 bl2 Hex2) as [E1 E2].
+  exists is2, os2, xml2, bl2. split; [exact Hex2|]. split; [exact E1|]. split; [exact E2|]. exact Hfile.
+Qed.
+
+End CopyRead.
+
+Print Assumptions copy_reads_back_partial.
